@@ -254,6 +254,17 @@ def newer_worker(job):
                         other = -rng.randrange(10 ** 7, 4 * 10 ** 8) * NS
                         os.utime(p_, ns=((base_ + delta, other) if which == "a" else (other, base_ + delta)))
                         files.append(os.path.relpath(p_, sb))
+            # symbolic links among the walked entries whose own time stamps lie on the other side of the reference's than their
+            # target's: the entry's X time stamp is the link's own under -P and under -H (which follows starting points only), the
+            # target's under -L
+            for nm_, (own, tgt) in (("lk_young", (1, -1)), ("lk_old", (-1, 1)), ("lk_edge", (0, 1))):
+                tp = os.path.join(d, nm_ + ".t")
+                open(tp, "wb").close()
+                os.utime(tp, ns=(rts["a"] + tgt * rng.choice([1, NS, 3600 * NS]), rts["m"] + tgt * rng.choice([1, NS, 3600 * NS])))
+                os.symlink(nm_ + ".t", os.path.join(d, nm_))
+                os.utime(os.path.join(d, nm_), ns=(rts["a"] + own * rng.choice([1, NS, 3600 * NS]), rts["m"] + own * rng.choice([1, NS, 3600 * NS])),
+                         follow_symlinks=False)
+                files += ["d/" + nm_, "d/" + nm_ + ".t"]
             lst = {f: os.lstat(os.path.join(sb, f)) for f in files}
             tests, specs = [], []
             for (x, y) in XY:
@@ -289,6 +300,9 @@ def newer_worker(job):
             lr = os.lstat(lref)
             follow = rng.choice([None, None, "-L", "-H"])
             lkey = "lref(link itself)" if follow is None else "lref(followed)"
+            if follow == "-L":
+                lst = {f: os.stat(os.path.join(sb, f)) for f in files}
+            st.inc("evaluations_of_links_with_time_stamps_of_their_own:" + (follow or "-P"), 3)
             for nm, (x, y) in (("-newer", ("m", "m")), ("-newermm", ("m", "m")), ("-neweram", ("a", "m")), ("-anewer", ("a", "m")), ("-newerma", ("m", "a")),
                                ("-cnewer", ("c", "m"))):
                 tests.append([nm, "lref"])
